@@ -57,7 +57,7 @@ def main():
         for c in checks:
             for tier in tiers:
                 t0 = time.time()
-                p = sh("cd %s && ./check %s --tier %s" % (VERIF, c, tier), env=env)
+                p = sh("cd %s && timeout 5400 ./check %s --tier %s" % (VERIF, c, tier), env=env)
                 kinds = re.findall(r"violation kinds: (.*)", p.stdout)
                 first = re.findall(r"e\.g\. \[[^\]]*\] (.*)", p.stdout)
                 res = {"check": c, "tier": tier, "exit": p.returncode, "wall_s": round(time.time() - t0, 1),
